@@ -14,7 +14,7 @@ from sim import ops as O
 from sim import sched as S
 
 PROP = "C19"
-GROUPS = ["m_basic", "m_ns", "m_same1", "m_same2", "m_xsi", "m_wild", "m_compound", "fx", "m_gen", "m_gen", "noclass", "ctx"]
+GROUPS = ["m_basic", "m_ns", "m_same1", "m_same2", "m_xsi", "m_wild", "m_compound", "m_edge", "fx", "m_gen", "m_gen", "noclass", "ctx"]
 MODES = [("shared", False)] * 7 + [("writers", False)] * 7 + [("all", False)] * 2 + [("shared", True)] * 2 + [("writers", True)] * 2
 THREAD_COUNTS = [2, 2, 2, 2, 3, 3, 3, 4, 4, 5, 6, 8, 10, 12, 16]
 
